@@ -6,6 +6,8 @@ _LD = ["-fsanitize=address,undefined"]
 HARNESSES = {
     "degen": {"src": "degen.cpp", "cxxflags": ASAN, "ldflags": _LD, "env": _ENV, "kind": "forked batches under ASan+UBSan, failing case attributed through shared memory"},
     "degen_big": {"src": "degen.cpp", "cxxflags": ASAN_BIG, "ldflags": _LD, "env": _ENV, "kind": "same, without signed-overflow/float-cast checks (magnitudes above 2^29, where the property does not claim them)"},
+    "allocfault": {"src": "allocfault.cpp", "cxxflags": ASAN, "ldflags": _LD, "env": _ENV, "kind": "E-FAULT: every single allocation point of every driver operation fails once (replaced operator new), forked batches under ASan"},
+    "allocfault_z": {"src": "allocfault.cpp", "cxxflags": ASAN, "ldflags": _LD, "env": _ENV, "main_config": "z", "kind": "same, USINGZ build"},
     "degen_z": {"src": "degen.cpp", "cxxflags": ASAN, "ldflags": _LD, "env": _ENV, "main_config": "z", "kind": "same, USINGZ build"},
 }
 PROPS = {
@@ -15,13 +17,15 @@ PROPS = {
                       {"harness": "degen", "args": ["--n", 2, "--nc", 2, "--n2", 2, "--mag", 1]},
                       {"harness": "degen_big", "args": ["--n", 2, "--nc", 2, "--n2", 2, "--mag", 2]},
                       {"harness": "degen_big", "args": ["--n", 2, "--nc", 2, "--n2", 2, "--mag", 3]},
-                      {"harness": "degen_z", "args": ["--n", 2, "--nc", 2, "--n2", 2, "--mag", 0]}],
+                      {"harness": "degen_z", "args": ["--n", 2, "--nc", 2, "--n2", 2, "--mag", 0]},
+                      {"harness": "allocfault", "args": []}, {"harness": "allocfault_z", "args": []}],
             "thorough": [{"harness": "degen", "args": ["--n", 3, "--nc", 3, "--n2", 2, "--mag", 0]},
                          {"harness": "degen", "args": ["--n", 4, "--nc", 2, "--n2", 2, "--mag", 0, "--families", "bool_paths,bool_tree,offset_single,rectclip,utils,minkowski"]},
                          {"harness": "degen", "args": ["--n", 3, "--nc", 2, "--n2", 2, "--mag", 1]},
                          {"harness": "degen_big", "args": ["--n", 3, "--nc", 2, "--n2", 2, "--mag", 2]},
                          {"harness": "degen_big", "args": ["--n", 3, "--nc", 2, "--n2", 2, "--mag", 3]},
-                         {"harness": "degen_z", "args": ["--n", 3, "--nc", 2, "--n2", 2, "--mag", 0]}],
+                         {"harness": "degen_z", "args": ["--n", 3, "--nc", 2, "--n2", 2, "--mag", 0]},
+                         {"harness": "allocfault", "args": []}, {"harness": "allocfault_z", "args": []}],
         },
         "rule": "scope D: every path of 0..n points WITH repeats over the 3x3 lattice {-M,0,M}^2 (M = 1, 2^29, 2^40, 2^62 for boolean only) crossed as subject x clip (all 5 clip types x 4 fill rules, paths and polytree), open subject x clip, "
                 "offset group(s) x 4 joins x 5 end types x 7 deltas, RectClip/RectClipLines x 7 rectangles (empty and inverted included), Minkowski operands, every path utility, C exports with null/empty arrays; builds with and without USINGZ; "
